@@ -131,6 +131,12 @@ pub fn list() -> Vec<String> {
     registry.keys().cloned().collect()
 }
 
+/// Verification only: address of the registry's raw lock.
+#[cfg(feature = "verif-hooks")]
+pub fn verif_lock_addr() -> usize {
+    unsafe { STATS_REGISTRY.raw() as *const _ as *const u8 as usize }
+}
+
 /// Clear all registered statistics.
 ///
 /// This removes all entries from the registry but does not reset the statistics themselves.
